@@ -204,6 +204,7 @@ Contract(
     axioms=MASK_AXIOMS,
     properties=["C19"],
     fuel=8,
+    shards=8,
     note="WF is preserved: the caches classify conds + {index: cond}; a present index is refused",
 )
 
